@@ -15,7 +15,7 @@ META = {
     "assumptions": ["stored scalars are float or double (the only types array::write_binary supports)",
                     "counts and extents small enough to allocate (the format allows any u64)"],
 }
-OBL = ("io_bytes", "io_reload", "io_redump")
+OBL = ("io_bytes", "io_reload", "io_redump", "io_lookups")
 
 
 def gen(ctx):
@@ -119,6 +119,47 @@ def evaluate(ctx, stacks, cases, cfgs):
             if len(corr.samples) < 10 and inf.depth >= 2 and (not corr.samples or corr.samples[-1]["stack"] != inf.label) and len(dat) < 400:
                 corr.sample({"stack": inf.label, "ty": inf.tytok, "dat": dat, "bytes": d1[k][:160] + ("…" if len(d1[k]) > 160 else ""),
                              "file_size": len(d1[k]) // 2, "cfg": cfg})
+        # (4) the reloaded field holds bit-identical values AT EVERY COORDINATE (not only the same stored words): lookups of the
+        # original and of the field loaded from its dump, compared in-process at every lattice coordinate. Eligible stacks:
+        # a storage order over an array with only value-side / interpolating layers above it (coordinates keep their meaning)
+        elig = []
+        for k in okidx:
+            si, dat = cases[k]
+            st = infos[si].stack
+            names = [l[0] for l in st]
+            if names[-1] != "array" or not any(n in ("strided", "morton", "hilbert") for n in names):
+                continue
+            pos = next(i for i, n in enumerate(names) if n in ("strided", "morton", "hilbert"))
+            if any(n not in ("nn", "linear", "deref", "cast") for n in names[:pos]) or any(n not in ("deref", "cast") for n in names[pos + 1:-1]):
+                continue
+            d = IO.parse_dat(dat)
+            node = d
+            while node[0] != "S":
+                node = node[-1]
+            sizes = node[1]
+            if not sizes or min(sizes) < 1 or IO.prod(sizes) > 4096:
+                continue
+            if "linear" in names and min(sizes) < 2:
+                continue            # the interpolator reads the +1 neighbour on every axis
+            need = IO.prod(sizes) if names[pos] == "strided" else IO.pow2ceil(max(sizes)) ** len(sizes)
+            arr = IO.array_of(d)
+            if arr is None or arr[2] < need:
+                continue            # (the `edge` profile also writes arrays shorter than the extents: fine for IO, not for lookups)
+            elig.append((k, sizes))
+        lk = impl.run(cfg, [(cases[k][0], f"lookups {{s}} {len(sz)} {' '.join(map(str, sz))} | " + cases[k][1]) for k, sz in elig])
+        for (k, sz), o in zip(elig, lk):
+            si, dat = cases[k]
+            inf = infos[si]
+            t = o.split()
+            corr.configs[cfg] += 1
+            corr.dist["lookups/" + inf.label.split("/")[0]] += 1
+            ok = len(t) == 3 and t[0] == "ok" and t[2] == "0"
+            corr.add_obl("io_lookups", 1, 0 if ok else 1)
+            if not ok and not o.startswith("unsupported"):
+                corr.violation("io_lookups", f"{inf.label} extents {sz}: the field loaded from its own dump differs from the original at {t[2] if len(t) == 3 else '?'} of "
+                               f"{t[1] if len(t) == 3 else '?'} lattice coordinates ({o[:100]})", {"stack": inf.stack, "dat": dat, "cfg": cfg}, impl=o[:300],
+                               model="ok n 0", oracle_fails=True, key={"kind": "lookups", "stack": inf.label, "dat": C.chash(dat)}, cfg=cfg)
+                corr.violations[-1]["_size"] = len(dat)
     corr.info["stacks"] = len(stacks)
     corr.info["layers_covered"] = sorted({l for inf in infos for l in inf.layers})
     missing = [l for l in IO.ALL_LAYERS if l not in corr.info["layers_covered"]]
